@@ -8,7 +8,7 @@ MB = 1 << 20
 META = dict(
     level="model_checking",
     bounds="one inductive step over chain depth per reader: the parent is an arbitrary byte array; VHDX differencing "
-           "(NOT_PRESENT / PARTIALLY_PRESENT incl. sector-bitmap lookup; request <= 3 sectors quick, <= 6 thorough; "
+           "(NOT_PRESENT / PARTIALLY_PRESENT incl. sector-bitmap lookup; request <= 3 sectors quick, <= 4 thorough (3 for 32 MiB/512); "
            "block 1 MiB/4096 and 32 MiB/512), _iter_partial_runs as a unit (bitmap of 2 bytes, start bit enumerated, "
            "<= 8 bits quick / 12 thorough), VMDK sparse delta, HDS with parent, VDI with parent, QCOW2 backing file of "
            "symbolic length; parent resolution (VHDX/VMDK/HDD) over a symbolic file system",
@@ -24,9 +24,9 @@ SPLIT_DEPTH = 10
 def tasks(tier):
     out = []
     q = tier == "quick"
-    out.append(("vhdx", dict(block_size=MB, sector_size=4096, max_count=3 if q else 6, has_parent=True)))
+    out.append(("vhdx", dict(block_size=MB, sector_size=4096, max_count=3 if q else 4, has_parent=True)))
     if not q:
-        out.append(("vhdx", dict(block_size=32 * MB, sector_size=512, max_count=5, has_parent=True)))
+        out.append(("vhdx", dict(block_size=32 * MB, sector_size=512, max_count=3, has_parent=True)))
     for s in ((0, 1, 5) if q else range(8)):
         out.append(("partial_runs", dict(nbytes=2, start_idx=s, max_len=8 if q else 12)))
     out.append(("vmdk", dict(kind="kdmv", grain_size=128, ngte=512, n_grains=1 if q else 2, has_parent=True)))
